@@ -1669,6 +1669,7 @@ def _t_eval(target, _t, scope):
         i += 2
     if root is A:
         op, arg = t_path[-2:]
+        arg = arg_val(target, arg, scope)  # (like the argument of any other step)
         if cur is scope:
             op = '['  # all assignment on scope is setitem
         _assign_op(dest=cur, op=op, arg=arg, val=target, path=_t, scope=scope)
